@@ -237,6 +237,16 @@ fn gen_custom_family(src: &mut Src) -> (Option<Desc>, MetricFamily, NFamily) {
             }
         }
     }
+    // the take_* accessors hand out one field and leave the rest of the message alone: take the samples (and each sample's labels) out
+    // and put them back
+    if src.chance(60) {
+        let mut ms = mf.take_metric();
+        for m in ms.iter_mut() {
+            let ls = m.take_label();
+            m.set_label(ls);
+        }
+        mf.set_metric(ms);
+    }
     // a sample built by copying the real one over a decoy with Clone::clone_from (every field must follow)
     if src.chance(50) {
         for m in mf.mut_metric().iter_mut() {
